@@ -195,7 +195,9 @@ static int extfull(int k, int l, int bgbit, unsigned seed, int cases) {
 // up to bootstrapping noise, according to the rounded phase of the input ----
 static int real(int n, int k, int l, int bgbit, int t, int bb, unsigned seed, int cases) {
     const int N = 1024; uint32_t sv[2] = {seed, 0x4ea1u}; tfhe_random_generator_setSeed(sv, 2);
-    LweParams* lp = new_LweParams(n, 1e-8, 0.1); TLweParams* tp = new_TLweParams(N, k, 1e-9, 0.1); TGswParams* gp = new_TGswParams(l, bgbit, tp); const LweParams* ep = &tp->extracted_lweparams;
+    // bootstrapping-key noise far below one unit of 2^-32 (what remains is the FFT rounding of the row bodies, 1-2 units, times digits of up to Bg/2):
+    // with Bgbit = 16 and eight steps that is about 2^22 units of standard deviation, the acceptance region of Table_C04F!RowReal is 2^26
+    LweParams* lp = new_LweParams(n, 1e-8, 0.1); TLweParams* tp = new_TLweParams(N, k, 1e-12, 0.1); TGswParams* gp = new_TGswParams(l, bgbit, tp); const LweParams* ep = &tp->extracted_lweparams;
     LweKey* lk = new_LweKey(lp); lweKeyGen(lk); TGswKey* tk = new_TGswKey(gp); tGswKeyGen(tk);
     LweBootstrappingKey* bk = new_LweBootstrappingKey(t, bb, lp, gp); tfhe_createLweBootstrappingKey(bk, lk, tk); LweBootstrappingKeyFFT* bkf = new_LweBootstrappingKeyFFT(bk);
     LweKey* xk = new_LweKey(ep); tLweExtractKey(xk, &tk->tlwe_key);
